@@ -48,6 +48,7 @@ def main(argv=None):
     s.add_argument("--jobs", type=int, default=16)
     s.add_argument("--root", default=os.environ.get("GFFSA_ROOT", "/repo"))
     s.add_argument("-v", action="store_true")
+    s.add_argument("--fixtures-only", action="store_true")
     a = sub.add_parser("all")
     a.add_argument("--tier", default="quick")
     a.add_argument("--root", default=os.environ.get("GFFSA_ROOT", "/repo"))
@@ -95,7 +96,7 @@ def main(argv=None):
         return 0
     if args.cmd == "selftest":
         from .selftest import run_selftest
-        st = run_selftest(args.pids or None, root=args.root, jobs=args.jobs, seed=seed, verbose=args.v)
+        st = run_selftest(args.pids or None, root=args.root, jobs=args.jobs, seed=seed, verbose=args.v, fixtures_only=args.fixtures_only)
         print("SELFTEST variants=%d ok=%d failed=%d skipped=%d" % (st["total"], st["ok"], st["failed"], st["skipped"]))
         for f in st["failures"]:
             print("SELFTEST-FAIL " + f)
